@@ -54,6 +54,13 @@ pub proof fn lemma_cfg_gstep_trans<'a>(a: CfgSt<'a>, b: CfgSt<'a>, c: CfgSt<'a>)
     ensures cfg_gstep(a, c),
 {
     lemma_cfg_wl_grows_trans(a, b, c);
+    lemma_cfg_gstep0_trans(a, b, c);
+}
+
+pub proof fn lemma_cfg_gstep0_trans<'a>(a: CfgSt<'a>, b: CfgSt<'a>, c: CfgSt<'a>)
+    requires cfg_gstep0(a, b), cfg_gstep0(b, c),
+    ensures cfg_gstep0(a, c),
+{
     assert forall |i: int| 0 <= i < a.nodes.len() implies #[trigger] c.nodes[i] == a.nodes[i] by { assert(c.nodes[i] == b.nodes[i]); }
     assert forall |i: int| 0 <= i < a.edges.len() implies #[trigger] c.edges[i] == a.edges[i] by { assert(c.edges[i] == b.edges[i]); }
     assert forall |k: (Tid, Tid)| #[trigger] a.jt.contains_key(k) implies c.jt.contains_key(k) && c.jt[k] == a.jt[k] by { assert(b.jt.contains_key(k)); }
@@ -164,4 +171,792 @@ pub proof fn lemma_cfg_g_node<'a>(st: CfgSt<'a>, w: Node<'a>)
             exists |e: int| 0 <= e < r.edges.len() && #[trigger] r.edges[e] == (CfgEdge { src: cfg_ni(m), dst: cfg_ni(m + 1), w: Edge::Block }) by {
         assert(r.nodes[m] == st.nodes[m]);
     }
+}
+
+// ---- no step ever removes a node (no size hypothesis needed) ---------------------------------------------------------------------
+
+pub proof fn lemma_cfg_len_intra<'a>(st: CfgSt<'a>, subs: Map<Tid, Term<Sub>>, source: NodeIndex, tid: Tid, jump: &'a Term<Jmp>, uc: Option<&'a Term<Jmp>>)
+    ensures st.nodes.len() <= cfg_intra(st, subs, source, tid, jump, uc).nodes.len(),
+{
+}
+
+pub proof fn lemma_cfg_len_indirect<'a>(st: CfgSt<'a>, subs: Map<Tid, Term<Sub>>, source: NodeIndex, jump: &'a Term<Jmp>, uc: Option<&'a Term<Jmp>>, targets: Seq<Tid>, n: int, m: int)
+    requires 0 <= m <= n,
+    ensures cfg_indirect_n(st, subs, source, jump, uc, targets, m).nodes.len() <= cfg_indirect_n(st, subs, source, jump, uc, targets, n).nodes.len(),
+    decreases n - m
+{
+    if m < n {
+        lemma_cfg_len_indirect(st, subs, source, jump, uc, targets, n, m + 1);
+        lemma_cfg_len_intra(cfg_indirect_n(st, subs, source, jump, uc, targets, m), subs, source, targets[m], jump, uc);
+    }
+}
+
+pub proof fn lemma_cfg_len_call<'a>(st: CfgSt<'a>, subs: Map<Tid, Term<Sub>>, ext: Set<Tid>, source: NodeIndex, jump: &'a Term<Jmp>, target: Tid, return_: Option<Tid>)
+    ensures
+        st.nodes.len() <= cfg_return_site(st, subs, source, return_).0.nodes.len() <= cfg_call(st, subs, ext, source, jump, target, return_).nodes.len(),
+        cfg_return_site(st, subs, source, return_).0.nodes.len() <= cfg_callind(st, subs, source, jump, return_).nodes.len(),
+{
+}
+
+pub proof fn lemma_cfg_len_jump_edge<'a>(st: CfgSt<'a>, subs: Map<Tid, Term<Sub>>, ext: Set<Tid>, source: NodeIndex, jump: &'a Term<Jmp>, uc: Option<&'a Term<Jmp>>)
+    ensures st.nodes.len() <= cfg_jump_edge(st, subs, ext, source, jump, uc).nodes.len(),
+{
+    match jump.term {
+        Jmp::BranchInd(e) => {
+            let targets = cfg_blk(st.nodes[source.i as int]).term.indirect_jmp_targets@;
+            lemma_cfg_len_indirect(st, subs, source, jump, uc, targets, targets.len() as int, 0);
+        },
+        Jmp::Call { target, return_ } => { lemma_cfg_len_call(st, subs, ext, source, jump, target, return_); },
+        Jmp::CallInd { target, return_ } => { lemma_cfg_len_call(st, subs, ext, source, jump, arbitrary(), return_); },
+        _ => {},
+    }
+}
+
+pub proof fn lemma_cfg_len_outgoing<'a>(st: CfgSt<'a>, subs: Map<Tid, Term<Sub>>, ext: Set<Tid>, node: NodeIndex, block: &'a Term<Blk>)
+    ensures
+        st.nodes.len() <= cfg_outgoing(st, subs, ext, node, block).nodes.len(),
+        block.term.jmps@.len() >= 2 ==> cfg_jump_edge(st, subs, ext, node, &block.term.jmps@[0], None).nodes.len() <= cfg_outgoing(st, subs, ext, node, block).nodes.len(),
+{
+    let jmps = block.term.jmps@;
+    if jmps.len() == 1 {
+        lemma_cfg_len_jump_edge(st, subs, ext, node, &jmps[0], None);
+    } else if jmps.len() >= 2 {
+        lemma_cfg_len_jump_edge(st, subs, ext, node, &jmps[0], None);
+        lemma_cfg_len_jump_edge(cfg_jump_edge(st, subs, ext, node, &jmps[0], None), subs, ext, node, &jmps[1], Some(&jmps[0]));
+    }
+}
+
+pub proof fn lemma_cfg_len_wl_steps<'a>(st: CfgSt<'a>, subs: Map<Tid, Term<Sub>>, ext: Set<Tid>, n: int, m: int)
+    requires 0 <= m <= n,
+    ensures cfg_wl_steps(st, subs, ext, m).nodes.len() <= cfg_wl_steps(st, subs, ext, n).nodes.len(),
+    decreases n - m
+{
+    if m < n {
+        lemma_cfg_len_wl_steps(st, subs, ext, n, m + 1);
+        let s = cfg_wl_steps(st, subs, ext, m);
+        let s1 = CfgSt { wl: s.wl.drop_last(), ..s };
+        lemma_cfg_len_outgoing(s1, subs, ext, s.wl.last(), cfg_blk(s1.nodes[s.wl.last().i as int]));
+    }
+}
+
+pub proof fn lemma_cfg_len_call_return_n<'a>(st: CfgSt<'a>, f_ret: &'a Term<Sub>, rs: NodeIndex, list: Seq<(NodeIndex, NodeIndex)>, n: int, m: int)
+    requires 0 <= m <= n,
+    ensures cfg_call_return_n(st, f_ret, rs, list, m).nodes.len() <= cfg_call_return_n(st, f_ret, rs, list, n).nodes.len(),
+    decreases n - m
+{
+    if m < n { lemma_cfg_len_call_return_n(st, f_ret, rs, list, n, m + 1); }
+}
+
+pub proof fn lemma_cfg_len_returns_n<'a>(st: CfgSt<'a>, list: Seq<NodeIndex>, n: int, m: int)
+    requires 0 <= m <= n,
+    ensures cfg_returns_n(st, list, m).nodes.len() <= cfg_returns_n(st, list, n).nodes.len(),
+    decreases n - m
+{
+    if m < n {
+        lemma_cfg_len_returns_n(st, list, n, m + 1);
+        let s = cfg_returns_n(st, list, m);
+        let f = cfg_sub(st.nodes[list[m].i as int]);
+        if s.ra.contains_key(f.tid) { lemma_cfg_len_call_return_n(s, f, list[m], s.ra[f.tid], s.ra[f.tid].len() as int, 0); }
+    }
+}
+
+// ---- the composite steps keep cfg_ginv and only grow the builder ------------------------------------------------------------------
+
+pub proof fn lemma_cfg_g_ensure<'a>(st: CfgSt<'a>, subs: Map<Tid, Term<Sub>>, tid: Tid, f: &'a Term<Sub>)
+    requires
+        cfg_ginv(st, subs), cfg_prog_sub(subs, *f), !st.jt.contains_key((tid, f.tid)) ==> cfg_has_block(subs, tid),
+        cfg_small(cfg_ensure(st, subs, tid, f).0),
+    ensures
+        cfg_ginv(cfg_ensure(st, subs, tid, f).0, subs),
+        cfg_gstep(st, cfg_ensure(st, subs, tid, f).0),
+        cfg_ensure(st, subs, tid, f).1.i < cfg_ensure(st, subs, tid, f).0.nodes.len(),
+        cfg_ensure(st, subs, tid, f).0.nodes[cfg_ensure(st, subs, tid, f).1.i as int] is BlkStart,
+        cfg_ensure(st, subs, tid, f).0.ra == st.ra,
+{
+    lemma_cfg_inv_ensure(st, subs, tid, f);
+    if !st.jt.contains_key((tid, f.tid)) {
+        broadcast use axiom_cfg_find_block;
+        let b = cfg_find_block::<'a>(subs, tid)->Some_0;
+        lemma_cfg_g_add_block(st, b, f);
+    }
+}
+
+pub proof fn lemma_cfg_g_intra<'a>(st: CfgSt<'a>, subs: Map<Tid, Term<Sub>>, source: NodeIndex, tid: Tid, jump: &'a Term<Jmp>, uc: Option<&'a Term<Jmp>>)
+    requires
+        cfg_ginv(st, subs), cfg_is_end(st, source), cfg_has_block(subs, tid),
+        cfg_small(cfg_intra(st, subs, source, tid, jump, uc)),
+    ensures
+        cfg_ginv(cfg_intra(st, subs, source, tid, jump, uc), subs),
+        cfg_gstep(st, cfg_intra(st, subs, source, tid, jump, uc)),
+        cfg_intra(st, subs, source, tid, jump, uc).ra == st.ra,
+{
+    let f = cfg_sub(st.nodes[source.i as int]);
+    assert(cfg_node_ok(subs, st.nodes[source.i as int]));
+    lemma_cfg_g_ensure(st, subs, tid, f);
+    lemma_cfg_inv_intra(st, subs, source, tid, jump, uc);
+    let (st1, t) = cfg_ensure(st, subs, tid, f);
+    lemma_cfg_g_edge(st1, source, t, Edge::Jump(jump, uc));
+    lemma_cfg_gstep_trans(st, st1, cfg_edge(st1, source, t, Edge::Jump(jump, uc)));
+}
+
+pub proof fn lemma_cfg_g_indirect<'a>(st: CfgSt<'a>, subs: Map<Tid, Term<Sub>>, source: NodeIndex, jump: &'a Term<Jmp>, uc: Option<&'a Term<Jmp>>, targets: Seq<Tid>, n: int)
+    requires
+        cfg_ginv(st, subs), cfg_is_end(st, source), 0 <= n <= targets.len(), cfg_targets_exist(subs, targets),
+        cfg_small(cfg_indirect_n(st, subs, source, jump, uc, targets, n)),
+    ensures
+        cfg_ginv(cfg_indirect_n(st, subs, source, jump, uc, targets, n), subs),
+        cfg_gstep(st, cfg_indirect_n(st, subs, source, jump, uc, targets, n)),
+        cfg_indirect_n(st, subs, source, jump, uc, targets, n).ra == st.ra,
+    decreases n
+{
+    if n > 0 {
+        let s1 = cfg_indirect_n(st, subs, source, jump, uc, targets, n - 1);
+        lemma_cfg_len_indirect(st, subs, source, jump, uc, targets, n, n - 1);
+        lemma_cfg_g_indirect(st, subs, source, jump, uc, targets, n - 1);
+        assert(s1.nodes[source.i as int] == st.nodes[source.i as int]);
+        lemma_cfg_g_intra(s1, subs, source, targets[n - 1], jump, uc);
+        lemma_cfg_gstep_trans(st, s1, cfg_indirect_n(st, subs, source, jump, uc, targets, n));
+    } else {
+        lemma_cfg_gstep_refl(st);
+    }
+}
+
+pub proof fn lemma_cfg_g_return_site<'a>(st: CfgSt<'a>, subs: Map<Tid, Term<Sub>>, source: NodeIndex, return_: Option<Tid>)
+    requires
+        cfg_ginv(st, subs), cfg_is_end(st, source), return_ is Some ==> cfg_has_block(subs, return_->Some_0),
+        cfg_small(cfg_return_site(st, subs, source, return_).0),
+    ensures
+        cfg_ginv(cfg_return_site(st, subs, source, return_).0, subs),
+        cfg_gstep(st, cfg_return_site(st, subs, source, return_).0),
+        cfg_return_site(st, subs, source, return_).0.ra == st.ra,
+        cfg_return_site(st, subs, source, return_).1 is Some <==> return_ is Some,
+        cfg_return_site(st, subs, source, return_).1 is Some ==> {
+            let rn = cfg_return_site(st, subs, source, return_).1->Some_0;
+            rn.i < cfg_return_site(st, subs, source, return_).0.nodes.len() && cfg_return_site(st, subs, source, return_).0.nodes[rn.i as int] is BlkStart
+        },
+{
+    assert(cfg_node_ok(subs, st.nodes[source.i as int]));
+    if return_ is Some {
+        lemma_cfg_g_ensure(st, subs, return_->Some_0, cfg_sub(st.nodes[source.i as int]));
+    } else {
+        lemma_cfg_gstep_refl(st);
+    }
+}
+
+/// registering one more return address
+pub proof fn lemma_cfg_g_ra_push<'a>(st: CfgSt<'a>, target: Tid, v: (NodeIndex, NodeIndex))
+    requires cfg_pairs_inv(st),
+    ensures
+        cfg_pairs_inv(CfgSt { ra: cfg_ra_push(st.ra, target, v), ..st }),
+        cfg_gstep(st, CfgSt { ra: cfg_ra_push(st.ra, target, v), ..st }),
+{
+    let r = CfgSt { ra: cfg_ra_push(st.ra, target, v), ..st };
+    assert forall |t: Tid| #[trigger] st.ra.contains_key(t) implies r.ra.contains_key(t) && st.ra[t].len() <= r.ra[t].len()
+            && forall |i: int| 0 <= i < st.ra[t].len() ==> #[trigger] r.ra[t][i] == st.ra[t][i] by {
+    }
+}
+
+pub proof fn lemma_cfg_g_call<'a>(st: CfgSt<'a>, subs: Map<Tid, Term<Sub>>, ext: Set<Tid>, source: NodeIndex, jump: &'a Term<Jmp>, target: Tid, return_: Option<Tid>)
+    requires
+        cfg_ginv(st, subs), cfg_is_end(st, source), cfg_has_call(*cfg_blk(st.nodes[source.i as int])),
+        return_ is Some ==> cfg_has_block(subs, return_->Some_0),
+        cfg_small(cfg_call(st, subs, ext, source, jump, target, return_)),
+    ensures
+        cfg_ginv(cfg_call(st, subs, ext, source, jump, target, return_), subs),
+        cfg_gstep(st, cfg_call(st, subs, ext, source, jump, target, return_)),
+{
+    lemma_cfg_len_call(st, subs, ext, source, jump, target, return_);
+    lemma_cfg_g_return_site(st, subs, source, return_);
+    lemma_cfg_inv_call(st, subs, ext, source, jump, target, return_);
+    let b = cfg_blk(st.nodes[source.i as int]);
+    let f = cfg_sub(st.nodes[source.i as int]);
+    let (st1, rn_opt) = cfg_return_site(st, subs, source, return_);
+    if ext.contains(target) {
+        if rn_opt is Some {
+            lemma_cfg_g_edge(st1, source, rn_opt->Some_0, Edge::ExternCallStub(jump));
+            lemma_cfg_gstep_trans(st, st1, cfg_edge(st1, source, rn_opt->Some_0, Edge::ExternCallStub(jump)));
+        }
+    } else if st1.ct.contains_key(target) {
+        let tn = st1.ct[target].0;
+        let cs = cfg_ni(st1.nodes.len() as int);
+        let w = Node::CallSource { source: (b, f), target: (cfg_blk(st1.nodes[tn.i as int]), cfg_sub(st1.nodes[tn.i as int])) };
+        let st2 = cfg_node(st1, w);
+        lemma_cfg_g_node(st1, w);
+        let st2b = cfg_edge(st2, source, cs, Edge::CallCombine(jump));
+        lemma_cfg_g_edge(st2, source, cs, Edge::CallCombine(jump));
+        let st3 = cfg_edge(st2b, cs, tn, Edge::Call(jump));
+        lemma_cfg_g_edge(st2b, cs, tn, Edge::Call(jump));
+        lemma_cfg_gstep_trans(st, st1, st2);
+        lemma_cfg_gstep_trans(st, st2, st2b);
+        lemma_cfg_gstep_trans(st, st2b, st3);
+        if rn_opt is Some {
+            let rn = rn_opt->Some_0;
+            lemma_cfg_g_ra_push(st3, target, (cs, rn));
+            lemma_cfg_gstep_trans(st, st3, CfgSt { ra: cfg_ra_push(st3.ra, target, (cs, rn)), ..st3 });
+        }
+    }
+}
+
+pub proof fn lemma_cfg_g_jump_edge<'a>(st: CfgSt<'a>, subs: Map<Tid, Term<Sub>>, ext: Set<Tid>, source: NodeIndex, jump: &'a Term<Jmp>, uc: Option<&'a Term<Jmp>>)
+    requires
+        cfg_ginv(st, subs), cfg_is_end(st, source),
+        cfg_jump_wf(subs, *cfg_blk(st.nodes[source.i as int]), *jump),
+        cfg_small(cfg_jump_edge(st, subs, ext, source, jump, uc)),
+    ensures
+        cfg_ginv(cfg_jump_edge(st, subs, ext, source, jump, uc), subs),
+        cfg_gstep(st, cfg_jump_edge(st, subs, ext, source, jump, uc)),
+{
+    match jump.term {
+        Jmp::Branch(tid) => { lemma_cfg_g_intra(st, subs, source, tid, jump, uc); },
+        Jmp::CBranch { target, condition } => { lemma_cfg_g_intra(st, subs, source, target, jump, uc); },
+        Jmp::BranchInd(e) => {
+            let targets = cfg_blk(st.nodes[source.i as int]).term.indirect_jmp_targets@;
+            lemma_cfg_g_indirect(st, subs, source, jump, uc, targets, targets.len() as int);
+        },
+        Jmp::Call { target, return_ } => { lemma_cfg_g_call(st, subs, ext, source, jump, target, return_); },
+        Jmp::CallInd { target, return_ } => {
+            lemma_cfg_g_return_site(st, subs, source, return_);
+            let (st1, rn_opt) = cfg_return_site(st, subs, source, return_);
+            if rn_opt is Some {
+                lemma_cfg_inv_edge(st1, subs, source, rn_opt->Some_0, Edge::ExternCallStub(jump));
+                lemma_cfg_g_edge(st1, source, rn_opt->Some_0, Edge::ExternCallStub(jump));
+                lemma_cfg_gstep_trans(st, st1, cfg_edge(st1, source, rn_opt->Some_0, Edge::ExternCallStub(jump)));
+            }
+        },
+        Jmp::CallOther { description, return_ } => { lemma_cfg_gstep_refl(st); },
+        Jmp::Return(e) => { lemma_cfg_gstep_refl(st); },
+    }
+}
+
+pub proof fn lemma_cfg_g_outgoing<'a>(st: CfgSt<'a>, subs: Map<Tid, Term<Sub>>, ext: Set<Tid>, node: NodeIndex, block: &'a Term<Blk>)
+    requires
+        cfg_ginv(st, subs), cfg_is_end(st, node), cfg_blk(st.nodes[node.i as int]) == block, cfg_block_wf(subs, *block),
+        cfg_small(cfg_outgoing(st, subs, ext, node, block)),
+    ensures
+        cfg_ginv(cfg_outgoing(st, subs, ext, node, block), subs),
+        cfg_gstep(st, cfg_outgoing(st, subs, ext, node, block)),
+{
+    let jmps = block.term.jmps@;
+    lemma_cfg_len_outgoing(st, subs, ext, node, block);
+    if jmps.len() == 0 {
+        lemma_cfg_gstep_refl(st);
+    } else if jmps.len() == 1 {
+        lemma_cfg_g_jump_edge(st, subs, ext, node, &jmps[0], None);
+    } else {
+        lemma_cfg_g_jump_edge(st, subs, ext, node, &jmps[0], None);
+        let s1 = cfg_jump_edge(st, subs, ext, node, &jmps[0], None);
+        assert(s1.nodes[node.i as int] == st.nodes[node.i as int]);
+        lemma_cfg_g_jump_edge(s1, subs, ext, node, &jmps[1], Some(&jmps[0]));
+        lemma_cfg_gstep_trans(st, s1, cfg_outgoing(st, subs, ext, node, block));
+    }
+}
+
+// ---- worklist accounting -----------------------------------------------------------------------------------------------------------
+
+pub proof fn lemma_cfg_accounted_gstep<'a>(a: CfgSt<'a>, b: CfgSt<'a>, done: Seq<NodeIndex>)
+    requires cfg_accounted(a, done), cfg_gstep(a, b),
+    ensures cfg_accounted(b, done),
+{
+    assert forall |i: int| 0 <= i < done.len() implies (#[trigger] done[i]).i < b.nodes.len() && b.nodes[done[i].i as int] is BlkEnd by {
+        assert(b.nodes[done[i].i as int] == a.nodes[done[i].i as int]);
+    }
+    assert forall |i: int| 0 <= i < b.wl.len() implies (#[trigger] b.wl[i]).i < b.nodes.len() && b.nodes[b.wl[i].i as int] is BlkEnd by {
+        if i < a.wl.len() { assert(b.wl[i] == a.wl[i]); assert(b.nodes[a.wl[i].i as int] == a.nodes[a.wl[i].i as int]); }
+    }
+    assert forall |i: int, j: int| 0 <= i < j < b.wl.len() implies #[trigger] b.wl[i] != #[trigger] b.wl[j] by {
+        if j < a.wl.len() { assert(b.wl[i] == a.wl[i] && b.wl[j] == a.wl[j]); }
+        else if i < a.wl.len() { assert(b.wl[i] == a.wl[i]); assert(a.wl[i].i < a.nodes.len()); }
+    }
+    assert forall |i: int, j: int| 0 <= i < b.wl.len() && 0 <= j < done.len() implies #[trigger] b.wl[i] != #[trigger] done[j] by {
+        if i < a.wl.len() { assert(b.wl[i] == a.wl[i]); } else { assert(done[j].i < a.nodes.len()); }
+    }
+    assert forall |n: int| 0 <= n < b.nodes.len() && (#[trigger] b.nodes[n]) is BlkEnd implies
+            (exists |i: int| 0 <= i < b.wl.len() && (#[trigger] b.wl[i]).i == n) || (exists |j: int| 0 <= j < done.len() && (#[trigger] done[j]).i == n) by {
+        if n < a.nodes.len() {
+            assert(b.nodes[n] == a.nodes[n]);
+            if exists |i: int| 0 <= i < a.wl.len() && (#[trigger] a.wl[i]).i == n {
+                let i = choose |i: int| 0 <= i < a.wl.len() && (#[trigger] a.wl[i]).i == n;
+                assert(b.wl[i] == a.wl[i]);
+            }
+        } else {
+            let i = choose |i: int| a.wl.len() <= i < b.wl.len() && (#[trigger] b.wl[i]).i == n;
+            assert(0 <= i < b.wl.len());
+        }
+    }
+}
+
+pub proof fn lemma_cfg_accounted_pop<'a>(st: CfgSt<'a>, done: Seq<NodeIndex>)
+    requires cfg_accounted(st, done), st.wl.len() > 0,
+    ensures cfg_accounted(CfgSt { wl: st.wl.drop_last(), ..st }, done.push(st.wl.last())),
+{
+    let r = CfgSt { wl: st.wl.drop_last(), ..st };
+    let d2 = done.push(st.wl.last());
+    let last = st.wl.len() - 1;
+    assert(st.wl[last] == st.wl.last());
+    assert forall |i: int| 0 <= i < d2.len() implies (#[trigger] d2[i]).i < r.nodes.len() && r.nodes[d2[i].i as int] is BlkEnd by {
+        if i < done.len() { assert(d2[i] == done[i]); }
+    }
+    assert forall |i: int| 0 <= i < r.wl.len() implies (#[trigger] r.wl[i]).i < r.nodes.len() && r.nodes[r.wl[i].i as int] is BlkEnd by {
+        assert(r.wl[i] == st.wl[i]);
+    }
+    assert forall |i: int, j: int| 0 <= i < j < d2.len() implies #[trigger] d2[i] != #[trigger] d2[j] by {
+        assert(d2[i] == done[i]);
+        if j < done.len() { assert(d2[j] == done[j]); } else { assert(st.wl[last] != done[i]); }
+    }
+    assert forall |i: int, j: int| 0 <= i < j < r.wl.len() implies #[trigger] r.wl[i] != #[trigger] r.wl[j] by {
+        assert(r.wl[i] == st.wl[i] && r.wl[j] == st.wl[j]);
+    }
+    assert forall |i: int, j: int| 0 <= i < r.wl.len() && 0 <= j < d2.len() implies #[trigger] r.wl[i] != #[trigger] d2[j] by {
+        assert(r.wl[i] == st.wl[i]);
+        if j < done.len() { assert(d2[j] == done[j]); } else { assert(st.wl[i] != st.wl[last]); }
+    }
+    assert forall |n: int| 0 <= n < r.nodes.len() && (#[trigger] r.nodes[n]) is BlkEnd implies
+            (exists |i: int| 0 <= i < r.wl.len() && (#[trigger] r.wl[i]).i == n) || (exists |j: int| 0 <= j < d2.len() && (#[trigger] d2[j]).i == n) by {
+        if exists |i: int| 0 <= i < st.wl.len() && (#[trigger] st.wl[i]).i == n {
+            let i = choose |i: int| 0 <= i < st.wl.len() && (#[trigger] st.wl[i]).i == n;
+            if i < last { assert(r.wl[i] == st.wl[i]); } else { assert(d2[done.len() as int].i == n); }
+        } else {
+            let j = choose |j: int| 0 <= j < done.len() && (#[trigger] done[j]).i == n;
+            assert(d2[j] == done[j]);
+        }
+    }
+}
+
+/// the rounds of the worklist loop: the invariants hold after every round, every BlkEnd node is waiting or processed exactly
+/// once, registered pairs / call targets / return addresses only grow
+pub proof fn lemma_cfg_g_wl_steps<'a>(s2: CfgSt<'a>, subs: Map<Tid, Term<Sub>>, ext: Set<Tid>, n: int)
+    requires
+        cfg_ginv(s2, subs), cfg_blocks_wf(subs), cfg_wl_runs(s2, subs, ext, n), cfg_accounted(s2, Seq::empty()),
+        cfg_small(cfg_wl_steps(s2, subs, ext, n)),
+    ensures
+        cfg_ginv(cfg_wl_steps(s2, subs, ext, n), subs),
+        cfg_gstep0(s2, cfg_wl_steps(s2, subs, ext, n)),
+        cfg_accounted(cfg_wl_steps(s2, subs, ext, n), cfg_done_n(s2, subs, ext, n)),
+    decreases n
+{
+    if n > 0 {
+        lemma_cfg_len_wl_steps(s2, subs, ext, n, n - 1);
+        assert(cfg_wl_runs(s2, subs, ext, n - 1));
+        lemma_cfg_g_wl_steps(s2, subs, ext, n - 1);
+        let s = cfg_wl_steps(s2, subs, ext, n - 1);
+        assert(s.wl.len() > 0);
+        let node = s.wl.last();
+        let s1 = CfgSt { wl: s.wl.drop_last(), ..s };
+        lemma_cfg_inv_pop(s, subs);
+        assert(cfg_pairs_inv(s1));
+        let d1 = cfg_done_n(s2, subs, ext, n - 1);
+        lemma_cfg_accounted_pop(s, d1);
+        let blk = cfg_blk(s1.nodes[node.i as int]);
+        let r = cfg_outgoing(s1, subs, ext, node, blk);
+        assert(r == cfg_wl_steps(s2, subs, ext, n));
+        lemma_cfg_g_outgoing(s1, subs, ext, node, blk);
+        lemma_cfg_accounted_gstep(s1, r, d1.push(node));
+        assert(cfg_done_n(s2, subs, ext, n) =~= d1.push(node));
+        assert(cfg_gstep0(s, r));
+        lemma_cfg_gstep0_trans(s2, s, r);
+    } else {
+        assert(cfg_done_n(s2, subs, ext, n) =~= Seq::<NodeIndex>::empty());
+    }
+}
+
+// ---- add_program_blocks in a program whose positions have pairwise different keys ------------------------------------------------------
+
+pub proof fn lemma_cfg_g_sub_blocks<'a>(st: CfgSt<'a>, subs: Map<Tid, Term<Sub>>, ks: Seq<Tid>, m: int, n: int)
+    requires
+        cfg_ginv(st, subs), cfg_key_order(ks, subs), cfg_positions_unique(subs), 0 <= m < ks.len(),
+        0 <= n <= subs[ks[m]].term.blocks@.len(),
+        cfg_keys_visited(st.jt, subs, ks, m, 0),
+        cfg_small(cfg_sub_blocks_n(st, &subs[ks[m]], n)),
+    ensures
+        cfg_ginv(cfg_sub_blocks_n(st, &subs[ks[m]], n), subs),
+        cfg_gstep(st, cfg_sub_blocks_n(st, &subs[ks[m]], n)),
+        cfg_keys_visited(cfg_sub_blocks_n(st, &subs[ks[m]], n).jt, subs, ks, m, n),
+    decreases n
+{
+    let f = &subs[ks[m]];
+    if n > 0 {
+        let s1 = cfg_sub_blocks_n(st, f, n - 1);
+        let b = &f.term.blocks@[n - 1];
+        let r = cfg_add_block(s1, b, f);
+        assert(r == cfg_sub_blocks_n(st, f, n));
+        assert(s1.nodes.len() <= r.nodes.len());
+        lemma_cfg_g_sub_blocks(st, subs, ks, m, n - 1);
+        assert(cfg_block_at(subs, ks[m], n - 1, *b));
+        assert(cfg_prog_block(subs, *b));
+        assert(subs.contains_key(ks[m]) && subs[ks[m]] == *f);
+        // the key of position (m, n-1) is not registered yet: it would be the key of an earlier position
+        if s1.jt.contains_key((b.tid, f.tid)) {
+            let (j, i) = choose |j: int, i: int| #[trigger] cfg_pos_before(subs, ks, j, i, m, n - 1) && (b.tid, f.tid) == (subs[ks[j]].term.blocks@[i].tid, subs[ks[j]].tid);
+            assert(cfg_block_at(subs, ks[j], i, subs[ks[j]].term.blocks@[i]));
+            assert(cfg_block_at(subs, ks[m], n - 1, subs[ks[m]].term.blocks@[n - 1]));
+            assert(ks[j] == ks[m] && i == n - 1);
+            assert(false);
+        }
+        lemma_cfg_inv_add_block(s1, subs, b, f);
+        lemma_cfg_g_add_block(s1, b, f);
+        lemma_cfg_gstep_trans(st, s1, r);
+        assert forall |key: (Tid, Tid)| #[trigger] r.jt.contains_key(key) implies
+                exists |j: int, i: int| #[trigger] cfg_pos_before(subs, ks, j, i, m, n) && key == (subs[ks[j]].term.blocks@[i].tid, subs[ks[j]].tid) by {
+            if key == (b.tid, f.tid) {
+                assert(cfg_pos_before(subs, ks, m, n - 1, m, n));
+            } else {
+                assert(s1.jt.contains_key(key));
+                let (j, i) = choose |j: int, i: int| #[trigger] cfg_pos_before(subs, ks, j, i, m, n - 1) && key == (subs[ks[j]].term.blocks@[i].tid, subs[ks[j]].tid);
+                assert(cfg_pos_before(subs, ks, j, i, m, n));
+            }
+        }
+    } else {
+        lemma_cfg_gstep_refl(st);
+    }
+}
+
+pub proof fn lemma_cfg_g_prog_blocks<'a>(st: CfgSt<'a>, subs: Map<Tid, Term<Sub>>, ks: Seq<Tid>, m: int)
+    requires
+        cfg_ginv(st, subs), cfg_key_order(ks, subs), cfg_positions_unique(subs), 0 <= m <= ks.len(),
+        cfg_keys_visited(st.jt, subs, ks, 0, 0),
+        cfg_small(cfg_prog_blocks_n(st, subs, ks, m)),
+    ensures
+        cfg_ginv(cfg_prog_blocks_n(st, subs, ks, m), subs),
+        cfg_gstep(st, cfg_prog_blocks_n(st, subs, ks, m)),
+        cfg_keys_visited(cfg_prog_blocks_n(st, subs, ks, m).jt, subs, ks, m, 0),
+    decreases m
+{
+    if m > 0 {
+        let s1 = cfg_prog_blocks_n(st, subs, ks, m - 1);
+        let f = &subs[ks[m - 1]];
+        let len = f.term.blocks@.len() as int;
+        let r = cfg_sub_blocks_n(s1, f, len);
+        assert(r == cfg_prog_blocks_n(st, subs, ks, m));
+        lemma_cfg_len_sub_blocks(s1, f, len, 0);
+        lemma_cfg_g_prog_blocks(st, subs, ks, m - 1);
+        lemma_cfg_g_sub_blocks(s1, subs, ks, m - 1, len);
+        lemma_cfg_gstep_trans(st, s1, r);
+        assert forall |key: (Tid, Tid)| #[trigger] r.jt.contains_key(key) implies
+                exists |j: int, i: int| #[trigger] cfg_pos_before(subs, ks, j, i, m, 0) && key == (subs[ks[j]].term.blocks@[i].tid, subs[ks[j]].tid) by {
+            let (j, i) = choose |j: int, i: int| #[trigger] cfg_pos_before(subs, ks, j, i, m - 1, len) && key == (subs[ks[j]].term.blocks@[i].tid, subs[ks[j]].tid);
+            assert(cfg_pos_before(subs, ks, j, i, m, 0));
+        }
+    } else {
+        lemma_cfg_gstep_refl(st);
+    }
+}
+
+pub proof fn lemma_cfg_len_sub_blocks<'a>(st: CfgSt<'a>, f: &'a Term<Sub>, n: int, m: int)
+    requires 0 <= m <= n,
+    ensures cfg_sub_blocks_n(st, f, m).nodes.len() <= cfg_sub_blocks_n(st, f, n).nodes.len(),
+    decreases n - m
+{
+    if m < n { lemma_cfg_len_sub_blocks(st, f, n, m + 1); }
+}
+
+// ---- return linkage ------------------------------------------------------------------------------------------------------------------
+
+pub proof fn lemma_cfg_g_call_return_1<'a>(st: CfgSt<'a>, subs: Map<Tid, Term<Sub>>, f_ret: &'a Term<Sub>, rs: NodeIndex, cn: NodeIndex, rn: NodeIndex)
+    requires
+        cfg_ginv(st, subs), rs.i < st.nodes.len(), cn.i < st.nodes.len(), rn.i < st.nodes.len(),
+        cfg_small(cfg_call_return_1(st, f_ret, rs, cn, rn)),
+    ensures
+        cfg_ginv(cfg_call_return_1(st, f_ret, rs, cn, rn), subs),
+        cfg_gstep(st, cfg_call_return_1(st, f_ret, rs, cn, rn)),
+        cfg_call_return_1(st, f_ret, rs, cn, rn).ra == st.ra,
+{
+    lemma_cfg_inv_call_return_step(st, subs, f_ret, rs, cn, rn);
+    let call = st.nodes[cn.i as int]->CallSource_source;
+    let cr = cfg_ni(st.nodes.len() as int);
+    let w = Node::CallReturn { call: call, return_: (cfg_blk(st.nodes[rs.i as int]), f_ret) };
+    lemma_cfg_g_node(st, w);
+    let s1 = cfg_node(st, w);
+    lemma_cfg_g_edge(s1, cn, cr, Edge::CrCallStub);
+    let s2 = cfg_edge(s1, cn, cr, Edge::CrCallStub);
+    lemma_cfg_g_edge(s2, rs, cr, Edge::CrReturnStub);
+    let s3 = cfg_edge(s2, rs, cr, Edge::CrReturnStub);
+    lemma_cfg_g_edge(s3, cr, rn, Edge::ReturnCombine(cfg_call_term(call.0)));
+    let s4 = cfg_edge(s3, cr, rn, Edge::ReturnCombine(cfg_call_term(call.0)));
+    lemma_cfg_gstep_trans(st, s1, s2);
+    lemma_cfg_gstep_trans(st, s2, s3);
+    lemma_cfg_gstep_trans(st, s3, s4);
+}
+
+pub proof fn lemma_cfg_g_call_return_n<'a>(st: CfgSt<'a>, subs: Map<Tid, Term<Sub>>, f_ret: &'a Term<Sub>, rs: NodeIndex, list: Seq<(NodeIndex, NodeIndex)>, n: int)
+    requires
+        cfg_ginv(st, subs), rs.i < st.nodes.len(), 0 <= n <= list.len(),
+        forall |i: int| 0 <= i < list.len() ==> (#[trigger] list[i]).0.i < st.nodes.len() && list[i].1.i < st.nodes.len(),
+        cfg_small(cfg_call_return_n(st, f_ret, rs, list, n)),
+    ensures
+        cfg_ginv(cfg_call_return_n(st, f_ret, rs, list, n), subs),
+        cfg_gstep(st, cfg_call_return_n(st, f_ret, rs, list, n)),
+        cfg_call_return_n(st, f_ret, rs, list, n).ra == st.ra,
+    decreases n
+{
+    if n > 0 {
+        lemma_cfg_len_call_return_n(st, f_ret, rs, list, n, n - 1);
+        lemma_cfg_g_call_return_n(st, subs, f_ret, rs, list, n - 1);
+        let s1 = cfg_call_return_n(st, f_ret, rs, list, n - 1);
+        lemma_cfg_g_call_return_1(s1, subs, f_ret, rs, list[n - 1].0, list[n - 1].1);
+        lemma_cfg_gstep_trans(st, s1, cfg_call_return_n(st, f_ret, rs, list, n));
+    } else {
+        lemma_cfg_gstep_refl(st);
+    }
+}
+
+pub proof fn lemma_cfg_g_call_return<'a>(st: CfgSt<'a>, subs: Map<Tid, Term<Sub>>, f_ret: &'a Term<Sub>, rs: NodeIndex)
+    requires cfg_ginv(st, subs), rs.i < st.nodes.len(), cfg_small(cfg_call_return(st, f_ret, rs)),
+    ensures
+        cfg_ginv(cfg_call_return(st, f_ret, rs), subs),
+        cfg_gstep(st, cfg_call_return(st, f_ret, rs)),
+        cfg_call_return(st, f_ret, rs).ra == st.ra,
+{
+    if st.ra.contains_key(f_ret.tid) {
+        let list = st.ra[f_ret.tid];
+        assert forall |i: int| 0 <= i < list.len() implies (#[trigger] list[i]).0.i < st.nodes.len() && list[i].1.i < st.nodes.len() by {
+            assert(cfg_ret_ok(st.nodes, st.ra[f_ret.tid][i]));
+        }
+        lemma_cfg_g_call_return_n(st, subs, f_ret, rs, list, list.len() as int);
+    } else {
+        lemma_cfg_gstep_refl(st);
+    }
+}
+
+pub proof fn lemma_cfg_g_returns_n<'a>(st: CfgSt<'a>, subs: Map<Tid, Term<Sub>>, list: Seq<NodeIndex>, n: int)
+    requires
+        cfg_ginv(st, subs), 0 <= n <= list.len(),
+        forall |i: int| 0 <= i < list.len() ==> (#[trigger] list[i]).i < st.nodes.len(),
+        cfg_small(cfg_returns_n(st, list, n)),
+    ensures
+        cfg_ginv(cfg_returns_n(st, list, n), subs),
+        cfg_gstep(st, cfg_returns_n(st, list, n)),
+        cfg_returns_n(st, list, n).ra == st.ra,
+    decreases n
+{
+    if n > 0 {
+        lemma_cfg_len_returns_n(st, list, n, n - 1);
+        lemma_cfg_g_returns_n(st, subs, list, n - 1);
+        let s1 = cfg_returns_n(st, list, n - 1);
+        lemma_cfg_g_call_return(s1, subs, cfg_sub(st.nodes[list[n - 1].i as int]), list[n - 1]);
+        lemma_cfg_gstep_trans(st, s1, cfg_returns_n(st, list, n));
+    } else {
+        lemma_cfg_gstep_refl(st);
+    }
+}
+
+/// the elements of cfg_return_nodes are existing nodes
+pub proof fn lemma_cfg_return_nodes_bound<'a>(nodes: Seq<Node<'a>>, n: int)
+    requires 0 <= n <= nodes.len(), nodes.len() <= usize::MAX,
+    ensures forall |i: int| 0 <= i < cfg_return_nodes(nodes, n).len() ==> (#[trigger] cfg_return_nodes(nodes, n)[i]).i < n,
+    decreases n
+{
+    if n > 0 {
+        lemma_cfg_return_nodes_bound(nodes, n - 1);
+        let r0 = cfg_return_nodes(nodes, n - 1);
+        let r = cfg_return_nodes(nodes, n);
+        assert forall |i: int| 0 <= i < r.len() implies (#[trigger] r[i]).i < n by {
+            if i < r0.len() { assert(r[i] == r0[i]); } else { assert(r[i] == cfg_ni(n - 1)); }
+        }
+    }
+}
+
+pub proof fn lemma_cfg_g_return_edges<'a>(st: CfgSt<'a>, subs: Map<Tid, Term<Sub>>)
+    requires cfg_ginv(st, subs), cfg_small(cfg_return_edges(st)),
+    ensures
+        cfg_ginv(cfg_return_edges(st), subs),
+        cfg_gstep(st, cfg_return_edges(st)),
+        cfg_return_edges(st).ra == st.ra,
+{
+    let list = cfg_return_nodes(st.nodes, st.nodes.len() as int);
+    lemma_cfg_len_returns_n(st, list, list.len() as int, 0);
+    lemma_cfg_return_nodes_bound(st.nodes, st.nodes.len() as int);
+    lemma_cfg_g_returns_n(st, subs, list, list.len() as int);
+}
+
+// ---- the global statement ------------------------------------------------------------------------------------------------------------
+
+/// every intermediate state of the rounds only grows into the last one
+pub proof fn lemma_cfg_g_wl_mono<'a>(s2: CfgSt<'a>, subs: Map<Tid, Term<Sub>>, ext: Set<Tid>, n: int, j: int)
+    requires
+        cfg_ginv(s2, subs), cfg_blocks_wf(subs), cfg_wl_runs(s2, subs, ext, n), cfg_accounted(s2, Seq::empty()),
+        cfg_small(cfg_wl_steps(s2, subs, ext, n)), 0 <= j <= n,
+    ensures cfg_gstep0(cfg_wl_steps(s2, subs, ext, j), cfg_wl_steps(s2, subs, ext, n)),
+    decreases n - j
+{
+    if j < n {
+        lemma_cfg_g_wl_mono(s2, subs, ext, n, j + 1);
+        lemma_cfg_len_wl_steps(s2, subs, ext, n, j);
+        lemma_cfg_len_wl_steps(s2, subs, ext, n, j + 1);
+        assert(cfg_wl_runs(s2, subs, ext, j));
+        lemma_cfg_g_wl_steps(s2, subs, ext, j);
+        let s = cfg_wl_steps(s2, subs, ext, j);
+        assert(s.wl.len() > 0);
+        let node = s.wl.last();
+        let s1 = CfgSt { wl: s.wl.drop_last(), ..s };
+        lemma_cfg_inv_pop(s, subs);
+        assert(cfg_pairs_inv(s1));
+        let blk = cfg_blk(s1.nodes[node.i as int]);
+        let r = cfg_outgoing(s1, subs, ext, node, blk);
+        assert(r == cfg_wl_steps(s2, subs, ext, j + 1));
+        lemma_cfg_g_outgoing(s1, subs, ext, node, blk);
+        assert(cfg_gstep0(s, r));
+        lemma_cfg_gstep0_trans(s, r, cfg_wl_steps(s2, subs, ext, n));
+    } else {
+        lemma_cfg_gstep_refl(cfg_wl_steps(s2, subs, ext, n));
+    }
+}
+
+/// part 1: the state after add_program_blocks and add_subs_to_call_targets
+#[verifier::rlimit(40)]
+pub proof fn lemma_cfg_global_s2<'a>(subs: Map<Tid, Term<Sub>>, ks: Seq<Tid>, s2: CfgSt<'a>)
+    requires
+        cfg_key_order(ks, subs),
+        cfg_call_targets_post(cfg_prog_blocks_n(cfg_empty(), subs, ks, ks.len() as int), s2, subs),
+        cfg_prog_wf(subs), cfg_positions_unique(subs), cfg_small(s2),
+    ensures
+        cfg_ginv(s2, subs),
+        cfg_accounted(s2, Seq::empty()),
+        forall |k: Tid, i: int| #[trigger] cfg_block_at(subs, k, i, subs[k].term.blocks@[i]) ==> s2.jt.contains_key((subs[k].term.blocks@[i].tid, subs[k].tid)),
+        forall |t: Tid| #[trigger] s2.ct.contains_key(t) <==> cfg_callable(subs, t),
+        forall |k: Tid| #[trigger] subs.contains_key(k) && subs[k].term.blocks@.len() > 0 ==>
+            s2.jt.contains_key((subs[k].term.blocks@[0].tid, subs[k].tid)) && s2.ct[subs[k].tid] == s2.jt[(subs[k].term.blocks@[0].tid, subs[k].tid)],
+{
+    let s0 = cfg_empty::<'a>();
+    let s1 = cfg_prog_blocks_n(s0, subs, ks, ks.len() as int);
+    assert(s2.nodes == s1.nodes);
+    lemma_cfg_inv_empty(s0, subs);
+    assert(cfg_pairs_inv(s0));
+    lemma_cfg_g_prog_blocks(s0, subs, ks, ks.len() as int);
+    assert(cfg_accounted(s0, Seq::empty()));
+    lemma_cfg_accounted_gstep(s0, s1, Seq::empty());
+    lemma_cfg_prog_blocks_keys(s0, subs, ks, ks.len() as int);
+    assert(cfg_prog_blocks_post(s0, s1, subs));
+    lemma_cfg_firsts_registered(s0, s1, subs);
+    lemma_cfg_inv_call_targets(s1, s2, subs);
+    assert(cfg_pairs_inv(s2));
+    assert(cfg_accounted(s2, Seq::empty()));
+    assert(s1.ct =~= s0.ct);
+    assert forall |k: Tid, i: int| #[trigger] cfg_block_at(subs, k, i, subs[k].term.blocks@[i]) implies s2.jt.contains_key((subs[k].term.blocks@[i].tid, subs[k].tid)) by {
+        let j = choose |j: int| 0 <= j < ks.len() && #[trigger] ks[j] == k;
+        assert(s1.jt.contains_key((subs[ks[j]].term.blocks@[i].tid, subs[ks[j]].tid)));
+    }
+    assert forall |k: Tid| #[trigger] subs.contains_key(k) && subs[k].term.blocks@.len() > 0 implies
+            s2.jt.contains_key((subs[k].term.blocks@[0].tid, subs[k].tid)) && s2.ct[subs[k].tid] == s2.jt[(subs[k].term.blocks@[0].tid, subs[k].tid)] by {
+        assert(cfg_registered(s1, subs[k].term.blocks@[0], subs[k]));
+    }
+}
+
+/// part 2: the rounds and the return linkage
+pub proof fn lemma_cfg_global_s3<'a>(st: CfgSt<'a>, subs: Map<Tid, Term<Sub>>, ext: Set<Tid>, s2: CfgSt<'a>, n: int)
+    requires
+        cfg_ginv(s2, subs), cfg_accounted(s2, Seq::empty()), cfg_blocks_wf(subs),
+        cfg_wl_runs(s2, subs, ext, n), cfg_wl_steps(s2, subs, ext, n).wl.len() == 0,
+        st == cfg_return_edges(cfg_wl_steps(s2, subs, ext, n)), cfg_small(st),
+    ensures
+        cfg_ginv(st, subs),
+        cfg_accounted(cfg_wl_steps(s2, subs, ext, n), cfg_done_n(s2, subs, ext, n)),
+        cfg_gstep(cfg_wl_steps(s2, subs, ext, n), st),
+        st.ra == cfg_wl_steps(s2, subs, ext, n).ra, st.jt == cfg_wl_steps(s2, subs, ext, n).jt, st.wl.len() == 0,
+        forall |j: int| 0 <= j <= n ==> cfg_gstep0(#[trigger] cfg_wl_steps(s2, subs, ext, j), st),
+{
+    let s3 = cfg_wl_steps(s2, subs, ext, n);
+    let list = cfg_return_nodes(s3.nodes, s3.nodes.len() as int);
+    lemma_cfg_len_returns_n(s3, list, list.len() as int, 0);
+    assert(s3.nodes.len() <= st.nodes.len());
+    lemma_cfg_g_wl_steps(s2, subs, ext, n);
+    lemma_cfg_g_return_edges(s3, subs);
+    lemma_cfg_return_edges_frame(s3);
+    assert forall |j: int| 0 <= j <= n implies cfg_gstep0(#[trigger] cfg_wl_steps(s2, subs, ext, j), st) by {
+        lemma_cfg_g_wl_mono(s2, subs, ext, n, j);
+        lemma_cfg_gstep0_trans(cfg_wl_steps(s2, subs, ext, j), s3, st);
+    }
+}
+
+/// part 3: every BlkEnd node of the final state was processed
+pub proof fn lemma_cfg_global_done<'a>(st: CfgSt<'a>, s3: CfgSt<'a>, done: Seq<NodeIndex>)
+    requires cfg_accounted(s3, done), cfg_gstep(s3, st), s3.wl.len() == 0, st.wl.len() == 0,
+    ensures
+        forall |x: int| 0 <= x < st.nodes.len() && (#[trigger] st.nodes[x]) is BlkEnd ==> exists |j: int| 0 <= j < done.len() && (#[trigger] done[j]).i == x,
+        forall |j: int| 0 <= j < done.len() ==> (#[trigger] done[j]).i < st.nodes.len() && st.nodes[done[j].i as int] is BlkEnd,
+        forall |j1: int, j2: int| 0 <= j1 < j2 < done.len() ==> #[trigger] done[j1] != #[trigger] done[j2],
+{
+    assert forall |x: int| 0 <= x < st.nodes.len() && (#[trigger] st.nodes[x]) is BlkEnd implies exists |j: int| 0 <= j < done.len() && (#[trigger] done[j]).i == x by {
+        if x >= s3.nodes.len() {
+            // a new BlkEnd node would be on the worklist, which is empty
+            let i = choose |i: int| s3.wl.len() <= i < st.wl.len() && (#[trigger] st.wl[i]).i == x;
+            assert(false);
+        }
+        assert(st.nodes[x] == s3.nodes[x]);
+    }
+    assert forall |j: int| 0 <= j < done.len() implies (#[trigger] done[j]).i < st.nodes.len() && st.nodes[done[j].i as int] is BlkEnd by {
+        assert(st.nodes[done[j].i as int] == s3.nodes[done[j].i as int]);
+    }
+}
+
+pub proof fn lemma_cfg_global_sizes<'a>(st: CfgSt<'a>, subs: Map<Tid, Term<Sub>>, ext: Set<Tid>, s2: CfgSt<'a>, n: int)
+    requires st == cfg_return_edges(cfg_wl_steps(s2, subs, ext, n)), 0 <= n,
+    ensures s2.nodes.len() <= cfg_wl_steps(s2, subs, ext, n).nodes.len() <= st.nodes.len(),
+{
+    let s3 = cfg_wl_steps(s2, subs, ext, n);
+    let list = cfg_return_nodes(s3.nodes, s3.nodes.len() as int);
+    lemma_cfg_len_returns_n(s3, list, list.len() as int, 0);
+    lemma_cfg_len_wl_steps(s2, subs, ext, n, 0);
+}
+
+#[verifier::rlimit(40)]
+pub proof fn lemma_cfg_global_steps<'a>(st: CfgSt<'a>, subs: Map<Tid, Term<Sub>>, ext: Set<Tid>, ks: Seq<Tid>, s2: CfgSt<'a>, n: int)
+    requires
+        cfg_build_steps(ks, s2, n, st, subs, ext),
+        cfg_prog_wf(subs), cfg_positions_unique(subs), cfg_small(st),
+    ensures
+        cfg_global(st, subs, ext, ks, s2, n),
+{
+    hide(cfg_inv); hide(cfg_pairs_inv); hide(cfg_accounted); hide(cfg_wl_grows); hide(cfg_wl_step); hide(cfg_returns_n);
+    hide(cfg_call_targets_post); hide(cfg_prog_blocks_n); hide(cfg_return_nodes); hide(cfg_positions_unique); hide(cfg_blocks_wf);
+    let s3 = cfg_wl_steps(s2, subs, ext, n);
+    let done = cfg_done_n(s2, subs, ext, n);
+    // sizes: nothing ever shrinks
+    lemma_cfg_global_sizes(st, subs, ext, s2, n);
+    lemma_cfg_global_s2(subs, ks, s2);
+    lemma_cfg_global_s3(st, subs, ext, s2, n);
+    lemma_cfg_global_done(st, s3, done);
+    assert(cfg_gstep0(cfg_wl_steps(s2, subs, ext, 0), st));
+    assert(cfg_gstep0(s2, st));
+    assert forall |k: Tid, i: int| #[trigger] cfg_block_at(subs, k, i, subs[k].term.blocks@[i]) implies cfg_registered(st, subs[k].term.blocks@[i], subs[k]) by {
+        assert(s2.jt.contains_key((subs[k].term.blocks@[i].tid, subs[k].tid)));
+        lemma_cfg_registered(st, subs, subs[k].term.blocks@[i], subs[k]);
+    }
+}
+
+/// add_return_edges touches neither the worklist nor the registered pairs
+pub proof fn lemma_cfg_return_edges_frame<'a>(st: CfgSt<'a>)
+    ensures cfg_return_edges(st).wl == st.wl, cfg_return_edges(st).jt == st.jt, cfg_return_edges(st).ct == st.ct,
+{
+    let list = cfg_return_nodes(st.nodes, st.nodes.len() as int);
+    lemma_cfg_returns_frame(st, list, list.len() as int);
+}
+
+pub proof fn lemma_cfg_returns_frame<'a>(st: CfgSt<'a>, list: Seq<NodeIndex>, n: int)
+    ensures cfg_returns_n(st, list, n).wl == st.wl, cfg_returns_n(st, list, n).jt == st.jt, cfg_returns_n(st, list, n).ct == st.ct,
+    decreases n
+{
+    if n > 0 {
+        lemma_cfg_returns_frame(st, list, n - 1);
+        let s = cfg_returns_n(st, list, n - 1);
+        let f = cfg_sub(st.nodes[list[n - 1].i as int]);
+        if s.ra.contains_key(f.tid) { lemma_cfg_call_return_frame(s, f, list[n - 1], s.ra[f.tid], s.ra[f.tid].len() as int); }
+    }
+}
+
+pub proof fn lemma_cfg_call_return_frame<'a>(st: CfgSt<'a>, f_ret: &'a Term<Sub>, rs: NodeIndex, list: Seq<(NodeIndex, NodeIndex)>, n: int)
+    ensures
+        cfg_call_return_n(st, f_ret, rs, list, n).wl == st.wl, cfg_call_return_n(st, f_ret, rs, list, n).jt == st.jt,
+        cfg_call_return_n(st, f_ret, rs, list, n).ct == st.ct,
+    decreases n
+{
+    if n > 0 { lemma_cfg_call_return_frame(st, f_ret, rs, list, n - 1); }
+}
+
+/// STAGE 3, top level: whatever `build` returns satisfies the global statement
+pub proof fn lemma_cfg_global<'a>(st: CfgSt<'a>, subs: Map<Tid, Term<Sub>>, ext: Set<Tid>)
+    requires cfg_build_post(st, subs, ext), cfg_prog_wf(subs), cfg_positions_unique(subs), cfg_small(st),
+    ensures cfg_global_post(st, subs, ext),
+{
+    let (ks, s2, n) = choose |ks: Seq<Tid>, s2: CfgSt<'a>, n: int| #[trigger] cfg_build_steps(ks, s2, n, st, subs, ext);
+    lemma_cfg_global_steps(st, subs, ext, ks, s2, n);
 }
